@@ -416,6 +416,55 @@ def slow_consumer(chk):
         chk.coverage["traces_validated_against_impl"] += 1
 
 
+def background_writer(chk, prop="C06"):
+    """The experiment's command exits 0 at once but leaves a background job that still holds its stdout and writes to it
+    1.5 s later.  Whenever the version's row is visible, the directory it names must be FINISHED: from that moment on
+    Conductor writes nothing into it any more (C08: "never writes into the directory of an already recorded version";
+    C06: the row never precedes its data).  Conductor's own copier threads write stdout.log until the pipe reaches end of
+    file, so the row may only appear after that."""
+    import subprocess
+    import time
+    import implrun
+    from common import PY, SRC
+
+    root = implrun.make_project({"COND": 'run_experiment(name="e", run="(sleep 1.5; echo late-line) & echo early-line")\n'})
+    p = subprocess.Popen([PY, "-m", "conductor", "run", "//:e"], cwd=root, env=dict(os.environ, PYTHONPATH=SRC), stdout=subprocess.PIPE, stderr=subprocess.PIPE)
+    first_seen = None
+    t0 = time.time()
+    while time.time() - t0 < 15 and p.poll() is None:
+        rows = implrun.index_rows(root)
+        if rows and first_seen is None:
+            logp = os.path.join(root, "cond-out", "e.task.%d" % rows[0][1], "stdout.log")
+            first_seen = (round(time.time() - t0, 2), open(logp, "rb").read() if os.path.exists(logp) else None)
+            break
+        time.sleep(0.02)
+    try:
+        out, err = p.communicate(timeout=30)
+    except subprocess.TimeoutExpired:
+        p.kill()
+        out, err = p.communicate()
+    rows = implrun.index_rows(root)
+    chk.coverage["evaluations"] += 1
+    chk.count("background-writer", "runs")
+    problems = []
+    if p.returncode != 0 or not rows:
+        problems.append("harness: cond exited %s with rows %r: %r" % (p.returncode, rows, (out + err)[-200:]))
+    else:
+        logp = os.path.join(root, "cond-out", "e.task.%d" % rows[0][1], "stdout.log")
+        final = open(logp, "rb").read() if os.path.exists(logp) else None
+        if final != b"early-line\nlate-line\n":
+            problems.append("after the run stdout.log holds %r, the command's processes wrote b'early-line\\nlate-line\\n'" % (final,))
+        if first_seen is not None and first_seen[1] != final:
+            problems.append("the version row was visible %.2f s into the run while stdout.log held %r; Conductor went on writing into the recorded directory (final content %r)"
+                            % (first_seen[0], first_seen[1], final))
+    for msg in problems:
+        chk.violation("impl-violation", "a command that exits while a background job still writes to its stdout: %s" % msg,
+                      {"input": {"part": "background-writer", "run": "(sleep 1.5; echo late-line) & echo early-line"}, "impl_observation": {"exit": p.returncode, "rows": [list(r) for r in rows]},
+                       "oracle_verdict": msg}, match_key={"background-writer": msg.split(" ")[0]}, size=1)
+    if not problems:
+        chk.coverage["traces_validated_against_impl"] += 1
+
+
 def run(tier, seed, replay=None):
     chk = Check("C06", tier, seed)
     chk.build_proofs(["Model/Store.vo", "Lib/Cmp.vo", "Refuted/StoreOld.vo"])
@@ -447,6 +496,7 @@ def run(tier, seed, replay=None):
     head_states(chk)
     durability_assumption(chk)
     slow_consumer(chk)
+    background_writer(chk, "C06")
     scs = scenarios(tier, chk.rng)
     total_runs = 0
     states_seen = 0
